@@ -303,11 +303,7 @@ class _SymArr(np.ndarray):
         return np.asarray(self).astype(dtype, *a, **k)
 
 
-@obligation('C16.export_quantisation', functions=[IO + '_save_im'], max_paths=64, nvalid=2,
-            stubs=['PIL.Image.fromarray(...).save := recorder (no file is written)'],
-            bounds='_save_im with depth 8 on a 1x2 image with symbolic values in [0, 1]: the stored integer levels are '
-                   'in 0..255 and within (0.5 + 1e-6)/255 of the value (the stated quantisation of the export)')
-def export_quantisation(S):
+def _export_quantisation(S, depth, full):
     _setup(S)
     saved = {}
 
@@ -333,16 +329,39 @@ def export_quantisation(S):
     class _Image:
         name = 'img'
         values = arr
-    io_mod._save_im('out.png', _Image(), depth=8)
+    try:
+        io_mod._save_im('out.png', _Image(), depth=depth)
+        raised = None
+    except TypeError as e:      # e.g. an integer type name NumPy does not know
+        raised = e
+    S.claim('export_succeeds', raised is None)
+    if raised is not None:
+        return
     q = np.asarray(saved['arr']).reshape(-1)
     S.claim('filename_kept', saved['filename'] == 'out.png')
     for i in range(2):
         S.observe(f'level{i}', q[i])
         S.claim_ge(f'level{i}.at_least_0', q[i], 0)
-        S.claim_le(f'level{i}.at_most_255', q[i], 255)
-        err = q[i] / 255 - vals[i]
-        S.claim_le(f'level{i}.error_upper', err, (0.5 + 1e-6) / 255)
-        S.claim_ge(f'level{i}.error_lower', err, -(0.5 + 1e-6) / 255)
+        S.claim_le(f'level{i}.at_most_full_scale', q[i], full)
+        err = q[i] - vals[i] * full         # in units of one stored level
+        S.claim_le(f'level{i}.error_upper', err, 0.5 + 1e-6)
+        S.claim_ge(f'level{i}.error_lower', err, -(0.5 + 1e-6))
+
+
+def _mk_export(depth, full):
+    @obligation(f'C16.export_quantisation.depth{depth}', functions=[IO + '_save_im'], max_paths=64, nvalid=2,
+                stubs=['PIL.Image.fromarray(...).save := recorder (no file is written)'],
+                bounds=f'_save_im with depth {depth} on a 1x2 image with symbolic values in [0, 1]: the stored integer '
+                       f'levels are in 0..{full} and within (0.5 + 1e-6)/{full} of the value (the stated quantisation '
+                       'of the export)')
+    def ob(S):
+        _export_quantisation(S, depth, full)
+    return ob
+
+
+_mk_export(8, 255)
+_mk_export(16, 2 ** 15 - 1)
+_mk_export(32, 2 ** 31 - 1)
 
 
 def _tiff_reload(S, depth, full_scale):
@@ -405,3 +424,110 @@ def tiff_reload_8(S):
             bounds="same with depth='float': a stored value v in [0,1] becomes smin + v (smax-smin)")
 def tiff_reload_float(S):
     _tiff_reload(S, 'float', 1.0)
+
+
+@obligation('C16.tiff_reload.depth16', functions=[IO + 'load', IO + 'save_image', IO + '_save_im', IO + 'pack_attrs',
+                                                  IO + 'unpack_attrs'], max_paths=64, nvalid=2,
+            stubs=['load_image := arbitrary stored levels 0..32767 with 0 and 32767 present; PIL decoding outside the claim'],
+            bounds='same with depth=16: the real export succeeds and a stored level L becomes smin + L (smax-smin)/32767')
+def tiff_reload_16(S):
+    _tiff_reload(S, 16, 32767.0)
+
+
+# ---------------------------------------------------------------------------
+# HDF5 attribute packing: pack_attrs -> (attribute store) -> unpack_attrs
+# ---------------------------------------------------------------------------
+
+def _h5_store(packed):
+    """what h5netcdf hands back for the attributes written by save(): strings stay strings, lists of numbers come
+    back as arrays (a one-element list as a NumPy scalar) - checked against a real save/load in the same obligation"""
+    out = {}
+    for k, v in packed.items():
+        if isinstance(v, list):
+            arr = np.asarray(v, dtype=object if any(core.is_sym(x) for x in v) else None)
+            out[k] = arr.reshape(-1)[0] if arr.size == 1 else arr
+        else:
+            out[k] = v
+    return out
+
+
+def _h5_attrs(S, layout):
+    import os
+    import shutil
+    import tempfile
+    _setup(S)
+    vals = np.array([[1.0, 2.0], [3.0, 4.0]])
+    if layout == 'scalar':
+        img = data_grid(vals, spacing=(0.1, 0.3), medium_index=1.33, illum_wavelen=0.66, illum_polarization=(1, 0),
+                        noise_sd=0.08, name='holo')
+        sym_noise = None
+    elif layout == 'averaged':
+        # the layout load_average produces for single-channel images: noise_sd is a 0-d DataArray
+        img = data_grid(vals, spacing=(0.1, 0.3), medium_index=1.33, illum_wavelen=0.66, illum_polarization=(1, 0),
+                        name='holo')
+        sym_noise = None     # a scalar goes through yaml.dump, which only takes concrete numbers
+    else:
+        img = data_grid(np.stack([vals, vals + 1], axis=-1), spacing=(0.1, 0.3), medium_index=1.33,
+                        illum_wavelen={'red': 0.66, 'green': 0.52}, illum_polarization={'red': (1, 0), 'green': (0, 1)},
+                        noise_sd={'red': 0.08, 'green': 0.11}, name='holo',
+                        extra_dims={'illumination': ['red', 'green']})
+        sym_noise = [S.real('noise_red', pos=True), S.real('noise_green', pos=True)]
+    # 1. a real save / load cycle of this layout (concrete numbers) in a scratch directory
+    conc = img.copy()
+    if layout == 'averaged':
+        conc.attrs['noise_sd'] = xr.DataArray(0.08)
+    tmp = tempfile.mkdtemp(prefix='symx_c16_')
+    try:
+        fn = os.path.join(tmp, 'im.h5')
+        io_mod.save(fn, conc)
+        back = io_mod.load(fn)
+        back.load()
+        back.close()
+    finally:
+        shutil.rmtree(tmp, ignore_errors=True)
+    S.claim('file.values', bool(np.array_equal(back.values, conc.values)))
+    S.claim('file.coords', all(bool(np.array_equal(back[d].values, conc[d].values)) for d in conc.dims))
+    S.claim('file.name', back.name == 'holo')
+    S.claim('file.medium_index', back.attrs.get('medium_index') == 1.33)
+    S.claim('file.noise', bool(np.allclose(np.asarray(back.attrs.get('noise_sd'), dtype=float).reshape(-1),
+                                           np.asarray(conc.attrs['noise_sd'], dtype=float).reshape(-1))))
+    S.claim('file.wavelen', bool(np.allclose(np.asarray(back.attrs.get('illum_wavelen'), dtype=float).reshape(-1),
+                                             np.asarray(conc.attrs['illum_wavelen'], dtype=float).reshape(-1))))
+    S.claim('file.polarization', bool(np.allclose(np.asarray(back.attrs['illum_polarization'].values, dtype=float),
+                                                  np.asarray(conc.attrs['illum_polarization'].values, dtype=float))))
+    # 2. the packing functions on arbitrary noise values
+    if sym_noise is None:
+        return
+    im2 = img.copy()
+    obj = object if S.sym else float
+    old = img.attrs['noise_sd']
+    im2.attrs['noise_sd'] = xr.DataArray(np.array(sym_noise, dtype=obj), dims=old.dims,
+                                         coords={d: old[d].values for d in old.dims})
+    unpacked = io_mod.unpack_attrs(_h5_store(io_mod.pack_attrs(im2)))
+    got = unpacked['noise_sd']
+    gv = np.asarray(got.values if hasattr(got, 'values') else got, dtype=obj).reshape(-1)
+    S.observe('noise', gv)
+    S.claim('attrs.noise_count', len(gv) == len(sym_noise))
+    for k, v in enumerate(sym_noise):
+        S.claim_eq(f'attrs.noise[{k}]', gv[k], v)
+    if layout == 'channels':
+        S.claim('attrs.noise_channels', list(got['illumination'].values) == list(img.attrs['noise_sd']['illumination'].values))
+    S.claim('attrs.medium_index', unpacked['medium_index'] == 1.33)
+    S.claim('attrs.input_untouched', im2.attrs['medium_index'] == 1.33 and 'noise_sd' in im2.attrs)
+
+
+def _mk_h5(layout, text):
+    @obligation(f'C16.h5_attrs.{layout}', functions=[IO + 'pack_attrs', IO + 'unpack_attrs', IO + 'save', IO + 'load'],
+                nvalid=2 if layout == 'channels' else 1, max_paths=64,
+                stubs=['attribute store between pack_attrs and unpack_attrs := lists come back as arrays (symbolic part); '
+                       'the concrete part writes and reads a real HDF5 file in a scratch directory'],
+                bounds=f'2x2 image, {text}: a real save/load cycle returns values, coordinates, name and metadata; '
+                       'for per-channel noise, pack_attrs -> unpack_attrs returns every (symbolic) noise value')
+    def ob(S):
+        _h5_attrs(S, layout)
+    return ob
+
+
+_mk_h5('scalar', 'scalar metadata')
+_mk_h5('averaged', 'noise_sd a dimensionless DataArray (what load_average produces for one channel)')
+_mk_h5('channels', 'two illumination channels with per-channel wavelength, polarization and noise')
